@@ -3,10 +3,10 @@
 package c10
 
 import (
-	"sync"
 	"errors"
 	"fmt"
 	"strings"
+	"sync"
 	"time"
 
 	"go.uber.org/zap"
@@ -244,15 +244,28 @@ func sinkFaults(r *ev.Run) {
 						// a user-defined wrapper that registers itself and forwards Write to the tee as a whole
 						top = wrapCore{top}
 					}
-					lg := zap.New(top, zap.ErrorOutput(eo), zap.WithPanicHook(noop{}))
+					// half of the vectors keep the stock terminal actions: a Panic entry (and, in development, a
+					// DPanic entry) really panics out of the call; the failure report must be there all the same
+					realTerm, dev := vec%2 == 1, vec%4 == 3
+					lopts := []zap.Option{zap.ErrorOutput(eo)}
+					if !realTerm {
+						lopts = append(lopts, zap.WithPanicHook(noop{}))
+					}
+					if dev {
+						lopts = append(lopts, zap.Development())
+					}
+					lg := zap.New(top, lopts...)
 					msg := fmt.Sprintf("entry-%d-%d-%d", k, vec, e)
-					wit := map[string]any{"mode": mode, "destinations": names, "entry": e, "level": lvl.String()}
+					wit := map[string]any{"mode": mode, "destinations": names, "entry": e, "level": lvl.String(), "stock_terminal_actions": realTerm, "development": dev}
 					bad := func(class, f string, a ...any) {
 						r.Violate(ev.Violation{Case: id, Class: class, Msg: fmt.Sprintf("%s %v entry %d: ", mode, names, e) + fmt.Sprintf(f, a...), Witness: wit})
 					}
 					if p := ev.Guard(func() { lg.Log(lvl, msg, zap.Int("n", e)) }); p != "" {
-						bad("sink-fault-panic", "the logging call panicked: %s", p)
-						break
+						if !(realTerm && (lvl == zapcore.PanicLevel || (lvl == zapcore.DPanicLevel && dev)) && strings.Contains(p, msg)) {
+							bad("sink-fault-panic", "the logging call panicked: %s", p)
+							break
+						}
+						r.Count("sink_fault_entries_ending_in_a_real_panic", 1)
 					}
 					r.Count("sink_fault_entries", 1)
 					anyErr := false
